@@ -507,6 +507,7 @@ def run(ctx):
     # ------------------------------------------------------------ R07.7
     char_literal_values(ctx)
     digit_strings(ctx)
+    implicit_enumerators(ctx)
 
     # ------------------------------------------------------------ R07.6
     n_c = 0
@@ -752,4 +753,99 @@ def digit_strings(ctx):
         ok = r is not None and r.get("d") in seeded
         ctx.ob("R07.8", "get_number|%s|converts-a-digit-string" % callee_short(c), ok, fn.loc(c), "%s converts %s" % (callee_short(c), show(a0)[:30] if a0 is not None else "?"))
     ctx.floor("R07.8", "numeric conversions in get_number", len(conv), 4)
+
+
+
+
+def implicit_enumerators(ctx):
+    """R07.9: an enumerator without initialiser has the value of its predecessor plus one ([dcl.enum]/2).
+    CPPEnumType::add_element builds that value symbolically; its re-association shortcut `(X + n) + 1 -> X + (n+1)` is
+    only an identity for `+`."""
+    db = ctx.db
+    ctx.rule("R07.9", "in CPPEnumType::add_element every value made for an enumerator without initialiser is predecessor + 1: `k + 1` only when the predecessor is an integer, `X + (n + 1)` only behind `_operator == '+'` with an integer right operand, otherwise '+'(predecessor, 1)")
+    fn = db.fn("CPPEnumType::add_element")
+    PLUS = ord("+")
+    n = 0
+
+    def lastv(e):
+        """path below _last_value: '' for _last_value itself, '_u._op._op1', ..."""
+        e = strip_casts(peel(e))
+        path = []
+        while e is not None and e.get("k") == "mem":
+            path.append(e["n"].split("::")[-1])
+            if e["n"].endswith("CPPEnumType::_last_value"):
+                return ".".join(reversed(path[:-1]))
+            e = strip_casts(peel(e.get("b")))
+        return None
+
+    def plus_one(e):
+        e = strip_casts(peel(e))
+        return e is not None and e.get("k") == "bin" and e.get("op") == "+" and ((const_int(e["y"]) == 1 and lastv(e["x"]) is not None) or (const_int(e["x"]) == 1 and lastv(e["y"]) is not None))
+
+    def op_is_plus(atom, truth):
+        c = G.cmp_atom(atom)
+        if not c:
+            return False
+        op, a, b = c
+        if not truth:
+            op = G.NEG[op]
+        for u, v in ((a, b), (b, a)):
+            if (lastv(u) or "").endswith("_operator") and const_int(v) == PLUS:
+                return op == "=="
+        return False
+
+    def type_is(tname, suffix):
+        def holds(atom, truth):
+            c = G.cmp_atom(atom)
+            if not c:
+                return False
+            op, a, b = c
+            if not truth:
+                op = G.NEG[op]
+            for u, v in ((a, b), (b, a)):
+                lv = lastv(u)
+                vv = strip_casts(peel(v))
+                if lv is not None and lv == suffix and vv is not None and vv.get("k") == "ref" and vv.get("n", "").endswith(tname):
+                    return op == "=="
+            return False
+        return holds
+    ones = {}
+    for st in fn.walk():
+        if st.get("k") == "decls":
+            for d in st["d"]:
+                for x in walk(d.get("init") or {}):
+                    if x.get("k") == "ctor" and x.get("f", "").startswith("CPPExpression::CPPExpression") and len([a for a in x.get("a", []) if a.get("k") != "defarg"]) == 1:
+                        ones[d["d"]] = const_int(x["a"][0])
+    for c in fn.walk():
+        if c.get("k") != "ctor" or not c.get("f", "").startswith("CPPExpression::CPPExpression"):
+            continue
+        args = [a for a in c.get("a", []) if a.get("k") != "defarg"]
+        if len(args) == 3:
+            n += 1
+            opv = const_int(args[0])
+            p1 = lastv(args[1])
+            inst = "add_element|binary@%s" % (p1 if p1 is not None else "other")
+            if opv != PLUS:
+                ctx.ob("R07.9", inst + "|operator", False, fn.loc(c), "the implicit value is built with operator %s, not the literal '+'" % show(args[0]))
+                continue
+            if p1 == "":
+                r = local_ref(args[2])
+                ok = r is not None and ones.get(r.get("d")) == 1
+                ctx.ob("R07.9", inst + "|plus-one", ok, fn.loc(c), "predecessor + %s" % (show(args[2])))
+            elif p1 is not None and p1.endswith("_op1"):
+                inner = [x for x in walk(args[2]) if x.get("k") == "ctor" and x.get("f", "").startswith("CPPExpression::CPPExpression")]
+                ok_inc = bool(inner) and plus_one(inner[0]["a"][0]) and (lastv(strip_casts(peel(inner[0]["a"][0]))["x"]) or "").endswith("_op2._u._integer")
+                ok_gate = G.gated(fn, c, G.edges_where(fn, op_is_plus)) and G.gated(fn, c, G.edges_where(fn, type_is("T_binary_operation", "_type"))) \
+                    and G.gated(fn, c, G.edges_where(fn, type_is("T_integer", "_u._op._op2._type")))
+                ctx.ob("R07.9", inst + "|reassociation-only-for-plus", ok_gate, fn.loc(c), "X + (n+1) is %sbehind `predecessor is (X + <integer>)`" % ("" if ok_gate else "NOT "))
+                ctx.ob("R07.9", inst + "|increments-right-operand-by-one", ok_inc, fn.loc(c), "new right operand: %s" % (show(inner[0]["a"][0]) if inner else "?"))
+            else:
+                ctx.ob("R07.9", inst + "|shape", False, fn.loc(c), "unrecognised construction of an implicit enumerator value: %s" % show(c)[:70])
+        elif len(args) == 1 and any(lastv(x) == "_u._integer" for x in walk(args[0]) if x.get("k") == "mem"):
+            # built from the predecessor's own integer value (the re-association's new right operand reads
+            # _u._op._op2._u._integer and is judged with it)
+            n += 1
+            ok = plus_one(args[0]) and G.gated(fn, c, G.edges_where(fn, type_is("T_integer", "_type")))
+            ctx.ob("R07.9", "add_element|integer-successor", ok, fn.loc(c), "`%s` is %spredecessor + 1 behind `predecessor is an integer literal`" % (show(c)[:60], "" if ok else "NOT "))
+    ctx.floor("R07.9", "implicit-value constructions", n, 3)
 
